@@ -702,8 +702,11 @@ M("C11", "benign-flag-name", "benign",
 # ---------------------------------------------------------------- C13
 CL = "GeminiClientProtocol.connection_lost"
 M("C13", "revert-fix-lookup-error", "breaking",
-  [(CP, CL, "except (UnicodeDecodeError, LookupError) as e:", "except UnicodeDecodeError as e:")],
+  [(CP, CL, "except (LookupError, ValueError) as e:", "except ValueError as e:")],
   "E1:client.protocol:GeminiClientProtocol.connection_lost:uncaught:LookupError")
+M("C13", "revert-fix-charset-valueerror", "breaking",
+  [(CP, CL, "except (LookupError, ValueError) as e:", "except (UnicodeDecodeError, LookupError) as e:")],
+  "E1:client.protocol:GeminiClientProtocol.connection_lost:uncaught:UnicodeError+ValueError")
 M("C13", "done-test-removed-and-early-return", "breaking",
   [(CP, CL, "        if not self.header_received:\n            self.response_future.set_exception(\n                ConnectionError(\"Connection closed before receiving response\")\n            )\n            return\n", "        if not self.header_received:\n            return\n")],
   "E1:client.protocol:GeminiClientProtocol.connection_lost:unresolved-exit")
@@ -739,11 +742,11 @@ M("C13", "transport-not-closed-on-error", "breaking",
 M("C13", "benign-titan-sibling-textual-divergence", "benign",
   [(CP, "TitanClientProtocol._set_error", "        if not self.response_future.done():\n            self.response_future.set_exception(exc)\n", "        future = self.response_future\n        if not future.done():\n            future.set_exception(exc)\n")])
 M("C13", "benign-tuple-order", "benign",
-  [(CP, CL, "except (UnicodeDecodeError, LookupError) as e:", "except (LookupError, UnicodeDecodeError) as e:"),
-   (CP, "TitanClientProtocol.connection_lost", "except (UnicodeDecodeError, LookupError) as e:", "except (LookupError, UnicodeDecodeError) as e:")])
+  [(CP, CL, "except (LookupError, ValueError) as e:", "except (ValueError, LookupError) as e:"),
+   (CP, "TitanClientProtocol.connection_lost", "except (LookupError, ValueError) as e:", "except (ValueError, LookupError) as e:")])
 M("C13", "benign-catch-all-decode", "benign",
-  [(CP, CL, "except (UnicodeDecodeError, LookupError) as e:", "except Exception as e:"),
-   (CP, "TitanClientProtocol.connection_lost", "except (UnicodeDecodeError, LookupError) as e:", "except Exception as e:")])
+  [(CP, CL, "except (LookupError, ValueError) as e:", "except Exception as e:"),
+   (CP, "TitanClientProtocol.connection_lost", "except (LookupError, ValueError) as e:", "except Exception as e:")])
 
 # ---------------------------------------------------------------- C16
 RF = "GeminiClient._get_with_redirects"
